@@ -1,10 +1,12 @@
 (* C14 — Encode/decode round trips preserve objects, bytes and identity.
    Property theorems only: each is closed by [exact <lemma>] and followed by
    [Print Assumptions].  Model: Model/C14.v, Lib/C14_{Varint,BigEndian,ProtoWire,RLP}.v
-   Lemmas: Proofs/C14.v, Lib/C14_ProtoWireFacts.v.  Schemas: Generated/C14Schemas.v. *)
+   Lemmas: Proofs/C14.v, Lib/C14_ProtoWireFacts.v.  Schemas: Generated/C14Schemas.v.
+   Ownership inventories: Lib/C14_Sites.v, Proofs/C14_Sites.v, Generated/C14Sites.v. *)
 From Coq Require Import List NArith Bool.
 From GQ Require Import Lib.Key Lib.C14_Varint Lib.C14_BigEndian Lib.C14_ProtoWire Lib.C14_ProtoWireFacts
-  Lib.C14_ProtoWireNF Lib.C14_RLP Generated.C14Schemas Model.C14 Proofs.C14.
+  Lib.C14_ProtoWireNF Lib.C14_RLP Generated.C14Schemas Model.C14 Proofs.C14
+  Lib.C14_Sites Generated.C14Sites Proofs.C14_Sites.
 Import ListNotations.
 Local Open Scope N_scope.
 
@@ -23,6 +25,43 @@ Theorem schemas_no_maps :
   outside_fragment schemas = [id_block_ProtoTrimDepths] /\ refs_covered schemas = true.
 Proof. split; [rewrite outside_is_listed; exact only_trim_depths_outside|exact refs_ok]. Qed.
 Print Assumptions schemas_no_maps.
+
+(* ---- ownership: obligations on the inventories generated from the source (Generated/C14Sites.v).
+   The codec theorems below are about values; "the bytes obtained for A stay A's bytes" and "a decoded
+   object is not changed by what happens to another decoded object" are about memory, and are checked
+   dynamically by the retain / alias monitors of the harness and statically here. ---- *)
+
+(* every function of core/types, core/rawdb, common, p2p/pb, rlp that takes a scratch value out of a
+   sync.Pool keeps its bytes inside: none returns v.Bytes() of the pooled value (the encoding a caller
+   holds is never recycled under it) *)
+Theorem pooled_scratch_bytes_never_returned :
+  forall s, In s C14Sites.pool_sites -> pool_escapes s = false.
+Proof. exact pooled_bytes_stay_inside. Qed.
+Print Assumptions pooled_scratch_bytes_never_returned.
+
+(* full statement: no struct field is ever assigned a package-level *big.Int.
+   Refuted on the current tree (finding alias/shared-between-decodes/QuaiTx.Value->common.Big0). *)
+Theorem decoded_fields_never_share_globals_refuted :
+  exists s, In s C14Sites.shared_stores /\ store_type s = ty_QuaiTx /\ store_field s = fd_Value.
+Proof. exact some_field_shares_a_global. Qed.
+Print Assumptions decoded_fields_never_share_globals_refuted.
+
+(* ... and that one is the only one *)
+Theorem shared_stores_reviewed_partial : stores_eqb C14Sites.shared_stores reviewed_stores = true.
+Proof. exact stores_as_reviewed. Qed.
+Print Assumptions shared_stores_reviewed_partial.
+
+(* the methods that update a *big.Int field of their receiver in place are the reviewed ones *)
+Theorem inplace_writers_reviewed : writers_eqb C14Sites.inplace_writers reviewed_writers = true.
+Proof. exact writers_as_reviewed. Qed.
+Print Assumptions inplace_writers_reviewed.
+
+(* what keeps the shared store latent: no (type, field) is both handed a package-level integer and
+   written in place *)
+Theorem no_shared_integer_is_written_in_place :
+  forall s w, In s C14Sites.shared_stores -> In w C14Sites.inplace_writers -> conflicts s w = false.
+Proof. exact nothing_live. Qed.
+Print Assumptions no_shared_integer_is_written_in_place.
 
 (* ---- varint ---- *)
 Theorem varint_roundtrip : forall n r, n < u64 -> C14_Varint.decode (C14_Varint.encode n ++ r) = Some (n, r).
@@ -248,3 +287,15 @@ Proof. split; [repeat split; vm_compute; reflexivity|eexists; vm_compute; repeat
 Example utxokey_roundtrip_nonvacuous :
   utxo_key (repeat 3 32) 513 = [117; 116] ++ repeat 3 32 ++ [2; 1].
 Proof. vm_compute. reflexivity. Qed.
+
+
+Example pool_sites_nonvacuous :
+  existsb (fun s => String.eqb (pool_site_name s) site_tx_encode_rlp) C14Sites.pool_sites = true /\
+  existsb (fun s => String.eqb (pool_site_name s) site_receipt_encode_rlp) C14Sites.pool_sites = true /\
+  existsb (fun s => String.eqb (pool_site_name s) site_derive_sha) C14Sites.pool_sites = true.
+Proof. vm_compute. repeat split. Qed.
+
+(* the conflict test does fire on the shape of the blind change C14_2 (ExternalTx.Value := common.Big0) *)
+Example conflicts_nonvacuous :
+  live_shared [etx_value_store] C14Sites.inplace_writers <> [].
+Proof. vm_compute. discriminate. Qed.
